@@ -3,7 +3,7 @@
 From Coq Require Import List ZArith.
 From Coq.Strings Require Import Byte.
 From GI Require Import Lib.Bytes Gen.CacheConsts Cache.CacheEntry Cache.Cache Cache.CacheSeqFacts
-  Cache.CacheFault Cache.CacheFaultFacts.
+  Cache.CacheFault Cache.CacheFaultFacts Cache.CacheHistFacts Cache.CacheFd Cache.CacheFdFacts.
 Import ListNotations.
 
 Theorem C12_inv_init : forall (H : bytes -> bytes) (U : bytes -> Prop), Inv H U no_files /\ InvB H U no_files.
@@ -70,3 +70,61 @@ Theorem C12_failed_put_frame : forall (H : bytes -> bytes) (U : bytes -> Prop),
   get fs' id' = get fs id' /\ get_bytes H fs' id' = get_bytes H fs id' /\ get_file fs' id' = get_file fs id'.
 Proof. exact failed_put_frame. Qed.
 Print Assumptions C12_failed_put_frame.
+
+(* ---- the output of the faulty Put is ALREADY stored (and shared with other ids): its bytes are
+   unchanged at every fault point, whichever content the faulty Put stores *)
+Theorem C12_failed_put_preserves_shared_output : forall (H : bytes -> bytes) (U : bytes -> Prop),
+  (forall x, length (H x) = hash_size_n) -> H_inj_on H U ->
+  forall fs s d,
+  I1 H U fs -> fput_ok H U s -> U d -> fs (DatP (H d)) = Some d -> fput_run H s fs (DatP (H d)) = Some d.
+Proof. exact failed_put_preserves_shared_output. Qed.
+Print Assumptions C12_failed_put_preserves_shared_output.
+
+(* ---- histories of faulty Puts on one cache: the only state handed from call to call is the file
+   map ([fhistory_run] is a fold over it); the invariant, every complete output and the lookups of
+   every id the history does not store survive any number of failing / interrupted Puts *)
+Theorem C12_faulty_history_inv : forall (H : bytes -> bytes) (U : bytes -> Prop),
+  (forall x, length (H x) = hash_size_n) -> H_inj_on H U ->
+  forall l fs, Inv H U fs -> Forall (fput_ok H U) l -> Inv H U (fhistory_run H l fs).
+Proof. exact faulty_history_inv. Qed.
+Print Assumptions C12_faulty_history_inv.
+
+Theorem C12_faulty_history_preserves_outputs : forall (H : bytes -> bytes) (U : bytes -> Prop),
+  (forall x, length (H x) = hash_size_n) -> H_inj_on H U ->
+  forall l fs d,
+  Inv H U fs -> Forall (fput_ok H U) l -> U d -> fs (DatP (H d)) = Some d -> fhistory_run H l fs (DatP (H d)) = Some d.
+Proof. exact faulty_history_preserves_outputs. Qed.
+Print Assumptions C12_faulty_history_preserves_outputs.
+
+Theorem C12_faulty_history_frame : forall (H : bytes -> bytes) (U : bytes -> Prop),
+  (forall x, length (H x) = hash_size_n) -> H_inj_on H U ->
+  forall l fs id',
+  Inv H U fs -> Forall (fput_ok H U) l -> Forall (fun s => fp_id s <> id') l ->
+  let fs' := fhistory_run H l fs in
+  get fs' id' = get fs id' /\ get_bytes H fs' id' = get_bytes H fs id' /\ get_file fs' id' = get_file fs id'.
+Proof. exact faulty_history_frame. Qed.
+Print Assumptions C12_faulty_history_frame.
+
+(* ---- PutBytes is Put from a source that cannot misbehave: every single file fault is covered *)
+Theorem C12_put_bytes_faulty_post : forall (H : bytes -> bytes) (U : bytes -> Prop),
+  (forall x, length (H x) = hash_size_n) -> H_inj_on H U ->
+  forall chunks fs id tm b,
+  let d := concat chunks in
+  length id = hash_size_n -> I1 H U fs -> U d -> regime_a b ->
+  put_post H id d fs (fst (fst (run_f b (put_bytes_prog H id chunks tm) fs))).
+Proof. exact put_bytes_faulty_post. Qed.
+Print Assumptions C12_put_bytes_faulty_post.
+
+(* ---- descriptors: under every fault budget, from every state, for every source, a Put that
+   returns has closed every file it opened (a Put that stops has no process left to hold any) *)
+Theorem C12_put_fd_balanced : forall (H : bytes -> bytes) id rd tm b fs,
+  (fd_leak b (put_prog H id rd tm) fs = Some 0%nat /\ exists a, snd (fst (run_f b (put_prog H id rd tm) fs)) = Done a) \/
+  (fd_leak b (put_prog H id rd tm) fs = None /\ snd (fst (run_f b (put_prog H id rd tm) fs)) = Stopped).
+Proof. exact put_fd_balanced. Qed.
+Print Assumptions C12_put_fd_balanced.
+
+Theorem C12_put_bytes_fd_balanced : forall (H : bytes -> bytes) id chunks tm b fs,
+  (fd_leak b (put_bytes_prog H id chunks tm) fs = Some 0%nat /\ exists a, snd (fst (run_f b (put_bytes_prog H id chunks tm) fs)) = Done a) \/
+  (fd_leak b (put_bytes_prog H id chunks tm) fs = None /\ snd (fst (run_f b (put_bytes_prog H id chunks tm) fs)) = Stopped).
+Proof. exact put_bytes_fd_balanced. Qed.
+Print Assumptions C12_put_bytes_fd_balanced.
